@@ -35,7 +35,7 @@ class Record:
     pass
 
 
-def run_tree(par, use_psutil, prefix=(), kinds=("P", "K"), vanish=True):
+def run_tree(par, use_psutil, prefix=(), kinds=("P", "K"), vanish=True, immune=()):
     leaves = {f"worker#t{i}" for i in range(len(par)) if i not in set(x for x in par if x is not None)}
     # injected deaths: only leaves (the death of an inner node orphans its children, which then
     # are no descendants of the worker any more)
@@ -57,6 +57,9 @@ def run_tree(par, use_psutil, prefix=(), kinds=("P", "K"), vanish=True):
         for i, p in enumerate(par):
             pp = parent if p is None else procs[p]
             sp = S.new_proc(f"worker#t{i}", pp)
+            if i in immune:
+                # a process that ignores every catchable signal (only SIGKILL ends it)
+                sp.info["ignored_signals"] = tuple(range(1, 65))
             gate = [False]
 
             def body(gate=gate):
@@ -160,6 +163,17 @@ def run_all(max_nodes=4, bound=1):
                     states |= rec.states
                     for sig, msg in judge(par, ps, rec):
                         viol.append((sig, msg, dict(tree=list(par), psutil=ps, prefix=[list(p) for p in prefix])))
+                # signal dispositions: each single process of the tree (then all of them)
+                # ignoring every catchable signal - only SIGKILL may be relied upon
+                if size <= 4:
+                    for immune in [(i,) for i in range(size)] + [tuple(range(size))]:
+                        rec = run_tree(par, ps, (), immune=immune)
+                        n += 1
+                        states |= rec.states
+                        for sig, msg in judge(par, ps, rec):
+                            viol.append((sig + ":sigterm-immune", msg + f" [processes {immune} ignore "
+                                         f"every catchable signal]",
+                                         dict(tree=list(par), psutil=ps, prefix=[], immune=list(immune))))
                 if len(samples) < 4 and size == max_nodes:
                     samples.append(dict(tree=list(par), psutil=ps, kill_order=root.order,
                                         schedules=len(todo)))
